@@ -195,6 +195,31 @@ func (a *a25) evalIn(chain []a25frame, idx int, v ssa.Value, depth int) []lin {
 		if fv := fieldVar(x); fv != nil {
 			return []lin{linSym("field:" + fname(fv))}
 		}
+	case *ssa.Call:
+		// a small private helper that computes the operand (`h.skipFrameCount()`): its returns are
+		// evaluated with its parameters bound to the arguments of this call
+		if g := staticCallee(&x.Call); g != nil && InModule(g) && g.Blocks != nil && len(g.Blocks) <= 8 && g.Object() != nil && !g.Object().Exported() && g.Signature.Results().Len() == 1 {
+			hasLoop := false
+			for _, b := range g.Blocks {
+				if isLoopHeader(b) {
+					hasLoop = true
+				}
+			}
+			if !hasLoop {
+				sub := append([]a25frame{}, chain[:idx+1]...)
+				sub[idx].site = x
+				sub = append(sub, a25frame{f: g})
+				var out []lin
+				eachInstr(g, func(_ *ssa.BasicBlock, _ int, in ssa.Instruction) {
+					if ret, ok := in.(*ssa.Return); ok && len(ret.Results) == 1 {
+						out = append(out, a.evalIn(sub, idx+1, ret.Results[0], depth+1)...)
+					}
+				})
+				if len(out) > 0 {
+					return out
+				}
+			}
+		}
 	}
 	return []lin{linBad("unsupported " + descr(v))}
 }
